@@ -144,13 +144,14 @@ theorem split_bgpls_vpn_known (code : Nat) (v rest : Bytes) (hc : code < 65536) 
 /-! #### FlowSpec -/
 
 theorem flowFrame_small (v : Bytes) (h : v.length < 240) : flowFrame v = some (v.length :: v) := by
-  unfold flowFrame; simp [flowCompactMax, h]
+  unfold flowFrame; simp [flowCompactLimit, h]
 
 theorem flowFrame_big (v : Bytes) (h1 : 240 ≤ v.length) (h2 : v.length < 4095) :
     flowFrame v = some ((240 + v.length / 256) :: v.length % 256 :: v) := by
   unfold flowFrame
-  have : ¬ v.length < flowCompactMax := by simp [flowCompactMax]; omega
-  simp [this, flowExtendedMax, flowExtendedValue, h2]
+  have h3 : ¬ v.length < flowCompactLimit := by simp [flowCompactLimit]; omega
+  have h4 : v.length < flowEncodeLimit := by simp [flowEncodeLimit]; omega
+  simp [h3, h4, flowExtendedValue]
 
 /-- The decoder as shipped (shift 16) inverts the encoder below 256 bytes. -/
 theorem split_flow (v rest : Bytes) (h : v.length < 256) :
